@@ -116,6 +116,13 @@ func verifStagedInc() { verifStaged.Add(1) }
 
 var verifAcks atomic.Int64
 
+var verifDelivered atomic.Int64
+
+func verifDeliveredInc() { verifDelivered.Add(1) }
+
+// VerifDeliveredCount counts staged removals whose listener calls have completed (process-wide).
+func VerifDeliveredCount() int64 { return verifDelivered.Load() }
+
 func verifAckInc() { verifAcks.Add(1) }
 
 // VerifAcksSent counts barrier/clear acknowledgements signalled so far (process-wide).
